@@ -411,6 +411,58 @@ func levelTextChecks(rng *rand.Rand, nrand int) (finds []Finding) {
 			lvlAllSurfaces(add, txt, ok, want)
 		}
 	}
+	// level names with something in front of or behind them: no prefix or suffix of a text is a level
+	for name := range names {
+		if name == "" {
+			continue
+		}
+		for _, txt := range []string{name + "s", name + " ", name + "\x00", name + "ing", strings.ToUpper(name) + ": disk almost full", "x" + name, " " + name, name + name, name[:len(name)-1]} {
+			if _, ok := names[strings.ToLower(txt)]; ok {
+				continue
+			}
+			if utf8.ValidString(txt) && !strings.ContainsAny(txt, "\x00") {
+				lvlAllSurfaces(add, txt, false, 0)
+			} else {
+				got := zapcore.Level(3)
+				err := got.UnmarshalText([]byte(txt))
+				checkParse(add, "Level.UnmarshalText", txt, false, 0, 3, got, err)
+			}
+		}
+	}
+	// the text a level marshals to belongs to the caller: scribbling over it changes nothing for anybody else
+	for _, l := range allLevels {
+		if b, err := l.MarshalText(); err == nil {
+			for i := range b {
+				b[i] = 'X'
+			}
+			_ = append(b[:0], "off"...)
+		}
+		al := zap.NewAtomicLevelAt(l)
+		if b, err := al.MarshalText(); err == nil {
+			for i := range b {
+				b[i] = 'Y'
+			}
+		}
+		b2, err := l.MarshalText()
+		b3, err3 := zap.NewAtomicLevelAt(l).MarshalText()
+		jb, _ := json.Marshal(zap.NewAtomicLevelAt(l))
+		if err != nil || string(b2) != l.String() || err3 != nil || string(b3) != l.String() || string(jb) != `"`+l.String()+`"` {
+			add("C20/roundtrip", "after a caller overwrote the slice an earlier MarshalText returned, level %d marshals as %q / %q / %s (want %q)", int8(l), b2, b3, jb, l.String())
+		}
+	}
+	// levels of separately made configurations are separate
+	{
+		p1, p2 := zap.NewProductionConfig(), zap.NewProductionConfig()
+		d1, d2 := zap.NewDevelopmentConfig(), zap.NewDevelopmentConfig()
+		p1.Level.SetLevel(zapcore.ErrorLevel)
+		d1.Level.SetLevel(zapcore.FatalLevel)
+		req := httptest.NewRequest("PUT", "/", strings.NewReader(`{"level":"warn"}`))
+		p1.Level.ServeHTTP(httptest.NewRecorder(), req)
+		p3 := zap.NewProductionConfig()
+		if p2.Level.Level() != zapcore.InfoLevel || p3.Level.Level() != zapcore.InfoLevel || d2.Level.Level() != zapcore.DebugLevel || zap.NewDevelopmentConfig().Level.Level() != zapcore.DebugLevel {
+			add("C20/level-changed-without-valid-put", "changing the level of one default configuration (SetLevel and a PUT on its own endpoint) changed others: a second production config is at %v, a later one at %v (want info); a second development config at %v (want debug)", p2.Level.Level(), p3.Level.Level(), d2.Level.Level())
+		}
+	}
 	// plausible but wrong names, short enough for any table of level names
 	for _, txt := range []string{"off", "trace", "none", "all", "warnn", "inf", "fata", "INFOO", "verbose", "crit", "notice", "err", "dbg", "1", "-1", "0"} {
 		if strings.HasPrefix(txt, "-") {
